@@ -20,6 +20,7 @@ LEVEL = "exploration"
 
 LATTICE3 = list(itertools.product(range(3), repeat=3))
 LATTICE2 = list(itertools.product(range(4), repeat=2))
+VARIANTS = {"unit": (1.0, 0.0, "lattice"), "small": (1e-3, 0.0, "lattice x 1e-3"), "tiny": (1e-6, 0.0, "lattice x 1e-6"), "large": (1e3, 0.0, "lattice x 1e3"), "far": (1.0, 1e6, "lattice + 1e6"), "offset": (1.0, np.array([7.0, -3.0, 11.0]), "lattice + (7,-3,11)")}
 
 
 def det3(a, b, c):
@@ -185,7 +186,7 @@ def check_points(t, pts_int, scale, shift, label, case, do_sphere=True):
 def _w_subsets(task):
     k, sl, nsl, variant = task
     t = harness.Tally()
-    scale, shift, label = {"unit": (1.0, 0.0, "lattice"), "small": (1e-3, 0.0, "lattice x 1e-3"), "large": (1e3, 0.0, "lattice x 1e3"), "far": (1.0, 1e6, "lattice + 1e6")}[variant]
+    scale, shift, label = VARIANTS[variant]
     for n, combo in enumerate(itertools.combinations(LATTICE3, k)):
         if n % nsl != sl:
             continue
@@ -337,7 +338,7 @@ def replay(case):
     t = harness.Tally()
     fam = case["family"]
     if fam == "subset":
-        scale, shift, label = {"unit": (1.0, 0.0, "lattice"), "small": (1e-3, 0.0, "lattice x 1e-3"), "large": (1e3, 0.0, "lattice x 1e3"), "far": (1.0, 1e6, "lattice + 1e6")}[case["variant"]]
+        scale, shift, label = VARIANTS[case["variant"]]
         check_points(t, [tuple(p) for p in case["points"]], scale, shift, label, case)
     elif fam == "2d":
         pts = [tuple(p) for p in case["points"]]
@@ -362,9 +363,13 @@ def main(run):
         for sl in range(nsl):
             tasks.append((_w_subsets, (k, sl, nsl, "unit")))
     # scaled / translated variants on a 1/64 slice (a fixed residue class, not a sample: stated in the evidence)
-    for variant in ("small", "large", "far"):
+    for variant in ("small", "tiny", "large", "far", "offset"):
         for k in (4, 5):
             tasks.append((_w_subsets, (k, 7, 64, variant)))
+    # three points: always planar (the coplanar fall-back of oriented_bounds), away from the origin too
+    for variant in ("unit", "offset", "small"):
+        for sl in range(4):
+            tasks.append((_w_subsets, (3, sl, 4, variant)))
     for k in (3, 4, 5):
         for sl in range(4):
             tasks.append((_w_2d, (k, sl, 4)))
